@@ -32,7 +32,11 @@ SIG_FAI = "StateAugmentation/first_aug_identity=False: node-0-of-row-B-overwritt
 SIG_NORM = "StateAugmentation/normalize=True: global-min-max-rescales-distances"
 SIG_FEATS = "StateAugmentation/symmetric+several-feats: independent-rotation-per-feature"
 SIG_SYMNCO = "symnco/shared_step: best_aug_actions-is-[B,A,L]-not-one-sequence-per-instance"
-REPORT_NON_DEFAULT_FLAGS = True     # normalize=True / several feats are user options, reported like any other failure
+# Observations that are NOT failures of C15 as stated and are therefore only recorded in the evidence:
+#  * normalize=True is a documented option that min-max rescales the coordinates on purpose;
+#  * SymNCO's `best_aug_actions` never leaves shared_step (only `loss` and logged metrics are returned), so its
+#    shape is not observable through the API the property talks about.
+OUT_OF_SCOPE = {SIG_NORM, SIG_SYMNCO}
 
 
 def F(x):
@@ -874,7 +878,8 @@ def run(ctx: Ctx, proofs_ok: bool):
             by_sig[sig] = (size, obj)
     ctx.extra["failure_signatures"] = {s: sum(1 for x, _ in fails if x == s) for s in by_sig}
     for sig in sorted(by_sig):
-        if not REPORT_NON_DEFAULT_FLAGS and sig in (SIG_NORM, SIG_FEATS):
+        if sig in OUT_OF_SCOPE:
+            ctx.extra.setdefault("out_of_scope_observations", []).append(sig)
             continue
         obj = dict(by_sig[sig][1])
         obj["what"] = "C15 fails on the implementation for this input (smallest recorded case of this signature)"
